@@ -252,6 +252,10 @@ func (t *ImmutableTree) Iterate(fn func(key []byte, value []byte) bool) (bool, e
 			return true, nil
 		}
 	}
+	// an iterator that stopped on a storage error is not a complete iteration
+	if err := itr.Error(); err != nil {
+		return false, err
+	}
 	return false, nil
 }
 
